@@ -1,3 +1,48 @@
-Require Import Base Opcode Tables Ops Tree Opt Flat Run.
-Example placeholder_C07 : True. Proof. exact I. Qed.
-Print Assumptions placeholder_C07.
+(* C07 — Compiled expressions are immutable, re-entrant and goroutine-safe.
+   PARTIAL BY NATURE. Proved: the Eval loop is iteration of a step function whose only state is the call's own
+   (program counter, operand stack, observation log); the program is a parameter the step cannot write; hence under
+   ANY interleaving of the steps of any number of calls over one shared program, every call ends with exactly what
+   Eval returns in isolation. NOT provable in Gallina: that the Go functions have that shape at the memory level
+   (no hidden shared mutable state, no data race) - this half is checked on every run by executing many goroutines
+   on one shared Expr under the Go race detector and comparing every result with its isolated counterpart and the
+   exported program before/after. Proofs: Proofs/ConcProofs.v. *)
+Require Import Base Opcode Tables Ops Tree Opt Flat Run Conc EvalDefs EvalTop ConcProofs.
+Open Scope Z_scope.
+
+(* one loop iteration is a function of the call's private state; the loop is its iteration *)
+Theorem C07_run_is_iterated_step : forall fetch custom P f i stk,
+  run fetch custom P (S f) i stk = resume (run fetch custom P f) (istep fetch custom P i stk).
+Proof. exact run_is_iterated_step. Qed.
+
+(* any schedule: a call has made exactly as many private steps as it was scheduled; nothing else touched it *)
+Theorem C07_interleaving_isolated : forall custom P sched calls n c, nth_error calls n = Some c ->
+  nth_error (sys_run custom P calls sched) n = Some (iter_call custom P (count n sched) c).
+Proof. exact interleaving_isolated. Qed.
+
+(* every call that got at least len(nodes)+1 iterations has finished with Eval's isolated trace and outcome *)
+Theorem C07_concurrent_calls_isolated : forall custom P sched fetches n f,
+  nth_error fetches n = Some f -> snd (eval f custom P) <> MFuel ->
+  (S (length (nodes P)) <= count n sched)%nat ->
+  nth_error (sys_run custom P (map new_call fetches) sched) n =
+    Some {| c_fetch := f; c_state := Finished (fst (eval f custom P)) (snd (eval f custom P)) |}.
+Proof. exact concurrent_calls_isolated. Qed.
+
+(* for compiled trees that is the reference semantics, for every binding of every call *)
+Theorem C07_concurrent_compiled : forall custom t sched fetches n f,
+  nth_error fetches n = Some f -> (S (length (nodes (compile t))) <= count n sched)%nat ->
+  nth_error (sys_run custom (compile t) (map new_call fetches) sched) n =
+    Some {| c_fetch := f; c_state := Finished (fst (sem_obs (sem f custom t))) (snd (sem_obs (sem f custom t))) |}.
+Proof. exact concurrent_compiled. Qed.
+
+(* non-vacuity: two calls with different bindings, interleaved step by step *)
+Definition fa (n : str) (k : Z) : res value := Ok (VBool true).
+Definition fb (n : str) (k : Z) : res value := Ok (VBool false).
+Definition nocustom (n : str) (a : list value) : res value := Err (EOther 0).
+Definition tr2 : tree := TOp (ss "and") false [TVar (ss "x") 1; TOp (ss "or") false [TVar (ss "y") 2; TVar (ss "x") 1]].
+Example C07_ex :
+  map c_state (sys_run nocustom (compile tr2) (map new_call [fa; fb]) [0; 1; 1; 0; 0; 1; 0; 1; 0; 1; 0; 1]%nat)
+  = [Finished [OGet (ss "x") 1; OGet (ss "y") 2] (MVal (VBool true)); Finished [OGet (ss "x") 1] (MVal (VBool false))].
+Proof. vm_compute. reflexivity. Qed.
+
+Print Assumptions C07_concurrent_calls_isolated.
+Print Assumptions C07_concurrent_compiled.
